@@ -47,7 +47,7 @@ def gen(rng, tier):
             yield {"family": "tls.alpn", "kind": "tls", "backend": be, "offer": offer, "backends": [be]}
     n = 0
     kinds = ["alpn_h2", "alpn_h11", "tls_noalpn", "prior", "h2c", "h2c_settings", "h2c_body", "websocket", "plain", "plain_pipelined",
-             "not_get_with_ws_fields", "h2c_http10"]
+             "not_get_with_ws_fields", "h2c_http10", "websocket_early_frame"]
     reps = 4 if tier == "quick" else 12
     for rep in range(reps):
         for kind in kinds:
@@ -103,6 +103,15 @@ def gen(rng, tier):
                                b"Transfer-Encoding: chunked\r\n\r\n5\r\nhas-a\r\n5\r\n-body\r\n0\r\n\r\n" % tags[0])
                 trailing = _h1_req(tags[1])
                 truth.update(proto="h1", version="1.1", expect=[tags[0], tags[1]])
+            elif kind == "websocket_early_frame":
+                # a client that does not wait for the 101: its first frame follows the opening at once.  The application decides late (after
+                # everything has arrived), so whatever the server makes of the early frame it makes of it for every segmentation - and if it
+                # accepts the connection after all, the frame was a client byte like any other: it has to be delivered
+                by_tag[str(tags[0])] = [["recv"], ["wait", "go"], ["send", {"type": "websocket.accept"}], ["ws_echo"]]
+                opening = ws.handshake(path=b"/t%d" % tags[0])
+                trailing = ws.message_frames(ws.OP_TEXT, b"early-%d" % base)
+                truth.update(proto="ws", version="1.1", frames=[], early=b"early-%d" % base, trigger="go")
+                reactor = {"kind": "ws", "echo_close": False}
             else:  # websocket
                 by_tag.pop(str(tags[0]))
                 # the tokens of Connection / Upgrade are a list: order, case and optional whitespace do not matter
@@ -140,6 +149,8 @@ def gen(rng, tier):
 def _mk(case, sizes):
     c = {k: v for k, v in case.items() if k not in ("data", "offsets", "three", "opening_len")}
     client = [["feed_split", case["data"], sizes], ["settle"]]
+    if case["truth"].get("trigger"):
+        client += [["trigger", case["truth"]["trigger"]], ["settle"]]
     if case["truth"]["proto"] == "ws":
         for fr in case["truth"]["frames"]:
             client += [["feed", fr], ["settle"]]
@@ -176,6 +187,10 @@ def _normalise(case, obs):
         rx = obs.reactor
         client = ("ws", rx.status, tuple(rx.parser.messages) if rx.parser else None, rx.parser.close if rx.parser else None)
     return (apps, client, obs.handler, obs.closed_at is not None)
+
+
+def _ws_texts(obs):
+    return [m.get("text") for inst in obs.apps.recvs for m in obs.apps.recvs[inst] if m.get("type") == "websocket.receive"]
 
 
 def _tls_case(case, tally):
@@ -317,6 +332,12 @@ def run_one(case, tally):
             if got != ("h1", exp):
                 findings.append({"clause": "answered-once", "sig": "C13.lost-or-duplicated/%s" % case["family"], "backend": be,
                                  "detail": "responses %r expected %r" % (got, exp)})
+        elif t.get("early"):
+            rx = ob0.reactor
+            got = [k for a in apps for k in a[5]]
+            if rx.status == 101 and not any(a[0] == "websocket" and t["early"].decode() in [str(x) for x in _ws_texts(ob0)] for a in apps):
+                findings.append({"clause": "answered-once", "sig": "C13.lost-bytes/websocket-early-frame", "backend": be,
+                                 "detail": "the opening was accepted (101) but the frame that followed it in the client's bytes never reached the application: %r" % (apps,)})
         else:
             rx = ob0.reactor
             if rx.status != 101:
